@@ -130,7 +130,7 @@ def run_vh(work, args, out_name, timeout, threads="2"):
     return out, rc
 
 
-STATEFUL_OPS = ("kop", "sop", "lop", "view")
+STATEFUL_OPS = ("kop", "sop", "lop", "view", "lc_compress", "lc_query", "lc_fixexts", "lc_recompress")
 RE_FAIL = re.compile(r'^<<"FAIL", (\d+), (-?\d+), "([^"]*)", \{([^}]*)\}(?:, (.*))?>>$')
 RE_DONE = re.compile(r'^<<"DONE", (\d+), (\d+)>>$')
 
